@@ -103,10 +103,24 @@ def scenarios(sch):
         {'op': 'w'},
         {'op': 'call', 'path': ['Span', 'Events', 'At:0'], 'm': 'SetName', 'args': ['s:62']},
         {'op': 'w'}, {'op': 'f'}]))
+    # S11: long strings in a string dictionary (4 KiB, just above it, 64 KiB and more): a long value written
+    # again is a reference, and so is every value admitted after it
+    for n in (4096, 4097, 5000, 70001):
+        long1 = ('6c' * n)
+        long2 = ('6c' * (n - 1)) + '6d'
+        m11 = lambda name, unit: [[[]], [name, '', unit, '0', [], [], '0', False], r1, ['', '', '', [], '0'],
+                                  [['6b', [1, name]]], ['1', '2', [1, '4'], []]]
+        out.append(dict(id=f'S11-long-dict-strings-{n}', root='Metrics', ops=[
+            {'op': 'set', 'v': m11(long1, '61')}, {'op': 'w'},
+            {'op': 'set', 'v': m11('6161', '62')}, {'op': 'w'},
+            {'op': 'set', 'v': m11(long1, '63')}, {'op': 'w'},
+            {'op': 'set', 'v': m11(long2, '6161')}, {'op': 'w'},
+            {'op': 'set', 'v': m11('6262', long2)}, {'op': 'w'},
+            {'op': 'set', 'v': m11(long2, long1)}, {'op': 'w'}, {'op': 'f'}]))
     return out
 
 
-def gen_cases(sch, rng, tier):
+def gen_cases(sch, rng, tier, h=None, prop='C01'):
     n_hist = 60 if tier == 'quick' else 700
     cases = []
     stats = collections.Counter()
@@ -157,6 +171,40 @@ def gen_cases(sch, rng, tier):
         for compr in (0, 1):
             cases.append(dict(id=f'boundary-{n}-c{compr}', root='Metrics', opts={'compression': compr, 'flags': 0}, ops=ops))
             stats['boundary_cases'] += 1
+    if prop == 'C02' and h is not None:
+        # writer configurations with a wire-schema override (WriterOptions.Schema + descriptor): the otel schema
+        # with every oneof cut to its first c alternatives and, in variant 't', every plain struct with more than
+        # two fields cut by one.  The specification decoder honours the descriptor; what it must yield is the
+        # written record projected to the override and padded back with defaults.
+        import copy as _copy
+        sys.path.insert(0, os.path.join(vlib.VERIF, 'tools', 'gen'))
+        import gen_schemas as _gs
+        anyv = [['6b31', [1, '61']], ['6b32', [2, True]], ['6b33', [3, '7']], ['6b34', [4, '3ff0000000000000']], ['6b35', [5, [[1, '62']]]],
+                ['6b36', [6, [['6b', [3, '1']]]]], ['6b37', [7, '0102']]]
+        pv = lambda k: {1: [1, '4'], 2: [2, '3ff0000000000000'], 3: [3, ['5', None, None, None, ['1', '2']]]}[k]
+        for c, trunc in ((1, False), (2, False), (3, False), (6, False), (2, True), (5, True)):
+            sh = _copy.deepcopy(sch)
+            for st in sh['structs']:
+                if st['oneof'] and len(st['fields']) > c:
+                    st['fields'] = st['fields'][:c]
+                elif trunc and not st['oneof'] and len(st['fields']) > 2 and st['name'] not in ('Metrics', 'Spans'):
+                    st['fields'] = st['fields'][:-1]
+            tag = f'oneof{c}{"t" if trunc else ""}'
+            for root in ('Metrics', 'Spans'):
+                rcm, mo = vlib.run_lines(h.model, ['schema %s %s' % (tag, ' '.join(_gs.model_tokens(sh))), f'counts {tag} {h.rootid(root)}'])
+                counts = [int(x) for x in mo[-1].split(',') if x]
+                nrec = 2 + rng.below(12)
+                ops = streamlib.gen_history(sch, root, rng, nrec)
+                if root == 'Metrics':
+                    # directed: every alternative of AnyValue and three of PointValue, each written twice
+                    pre = []
+                    for k in (1, 2, 3, 1):
+                        rec = [[[]], ['6d', '', '', '0', [], [], '0', False], ['', [], '0'], ['', '', '', [], '0'], anyv, ['1', str(k), pv(k), []]]
+                        pre += [{'op': 'set', 'v': rec, 'freeze': True}, {'op': 'w'}]
+                    ops = pre + ops
+                opts = streamlib.gen_opts(rng); opts['descriptor'] = True; opts['schema'] = counts
+                cases.append(dict(id=f'override-{tag}-{root}', root=root, opts=opts, ops=ops, override=sh))
+                stats['override_cases'] += 1
     for sc in scenarios(sch):
         for compr in (0, 1):
             cases.append(dict(id=sc['id'] + f'-c{compr}', root=sc['root'],
@@ -263,6 +311,9 @@ def check_case(prop, c, o, m, verdict, known, counters, sch):
             counters['correspondence'] += 1
             return
     else:  # C02
+        if c.get('override'):
+            import check_c04 as _c4
+            written = [_c4.conv_dump(_c4.conv_dump(w, sch, c['override'], c['root']), c['override'], sch, c['root']) for w in written]
         if m.get('open') != 'ok' or m.get('end') != 'eos':
             fail('spec-decode', f'specification decoder rejects the emitted bytes ({m.get("open")}, {m.get("end")})'); return
         if [strip_mask(r) for r in m.get('recs', [])] != written:
@@ -309,7 +360,7 @@ def main():
         verdict.violation(dict(broken='extraction/ocaml build failed', log=log_oc[-3000:]), 'model does not extract', no_input=True)
     else:
         h = streamlib.Harness('otel', sch, gobin, sj)
-        cases, stats = gen_cases(sch, rng, tier)
+        cases, stats = gen_cases(sch, rng, tier, h, prop)
         # corpus of earlier minimised failures runs first
         corpus = sorted(glob.glob(os.path.join(vlib.VERIF, 'corpus', prop, '*.json')))
         ccases = [json.load(open(p)) for p in corpus]
